@@ -130,6 +130,12 @@ def main():
     t0 = time.time()
     rng = random.Random(seed * 1000003 + int(pid[1:]))
     os.makedirs(REPLAYS, exist_ok=True)
+    # one check at a time: the checks share the harness crates' source files and build directories (src/bin/<family>.rs, target/),
+    # so two checks started in parallel take turns instead of overwriting each other's generated programs
+    import fcntl
+    global _CHECK_LOCK
+    _CHECK_LOCK = open(os.path.join(os.path.dirname(REPLAYS), 'check.lock'), 'w')
+    fcntl.flock(_CHECK_LOCK, fcntl.LOCK_EX)
 
     if args.replay:
         return fam.replay(pid, P, args.replay)
